@@ -37,6 +37,9 @@ func genC14(seed uint64, tier string) *Plan {
 	p.SK["router"] = []string{"gossipsub", "gossipsub", "floodsub", "randomsub"}[r.intn(4)]
 	p.Knobs["ntopics"] = 2
 	p.Knobs["discovery"] = float64(b2i(r.chance(0.4)))
+	if r.chance(0.25) {
+		p.Knobs["p_open_fail"] = []float64{0.15, 0.4, 0.8}[r.intn(3)] // stream opens that fail or are slow
+	}
 	p.Knobs["scoring"] = float64(r.intn(2))
 	p.Knobs["hb_ms"] = 1000
 	p.Knobs["queue_size"] = float64([]int{1, 2, 32}[r.intn(3)])
